@@ -397,5 +397,153 @@ theorem line9_fold_shape (hc : CoinM ctx) (hq : QInv Mb q G) (h : SemInv ctx q G
 
 end
 
+section
+variable {ctx : Ctx} {Mb : Nat} {q : Query} {G : MG Name}
+
+/-- line 9 -/
+theorem shape_line9 (hc : CoinM ctx) (hq : QInv Mb q G) (h : SemInv ctx q G) (hcar : SrcCarried ctx q G)
+    (hlen : 1 < G.districts.length) {c d : List Name} (hd : d ∈ G.districts) (hdc : ∀ v, v ∈ d ↔ v ∈ c)
+    (hcT : ∀ v ∈ c, isTnode v = false) (hcne : c ≠ []) {e9 : Expr} (he : line9 q G c = .ok e9) :
+    Shape ctx.M.card ctx.leaf σz e9 := by
+  have he0 := he
+  unfold line9 at he
+  rw [clean_not_zero h.good.1] at he
+  simp only [Bool.false_eq_true, if_false] at he
+  obtain ⟨order, hord, he⟩ := bind_ok he
+  obtain ⟨prod, hprod, he⟩ := bind_ok he
+  obtain ⟨r2, hr2, he⟩ := bind_ok he
+  have hee : e9 = sumSafe r2 (plainVars (diff' c q.Y)) := by simpa [pure, Except.pure] using he.symm
+  have hcne' : nsort c ≠ [] := nsort_nonempty hcne
+  -- the loop
+  rcases line9_fold_shape hc hq h hcar hlen hord (nsort c) .one prod (Or.inl rfl) hprod with ⟨h0, _⟩ | ⟨N, D, rfl, P⟩
+  · exact absurd h0 hcne'
+  · -- the value of the accumulated fraction is the c-factor of the district
+    obtain ⟨_, _, _, hden⟩ := TrsoAux.line9_fold hq h hord (nsort c) .one (.frac N D) ⟨trivial, trivial⟩ trivial
+      (Or.inl rfl) hprod
+    have hcreg : ∀ v ∈ nsort c, isTnode v = false := fun v hv => hcT v ((mem_nsort v c).1 hv)
+    have hval : denL ctx.M.card ctx.leaf N σz / denL ctx.M.card ctx.leaf D σz = (1 / 2 : Rat) ^ (nsort c).length := by
+      have := hden σz
+      rw [TrsoAux.tian_prod hq h hord hd (nsort_nodup' c) (fun v => by rw [mem_nsort]; exact (hdc v).symm) hcreg σz,
+        hc.Q] at this
+      simpa [TrsoAux.denL_frac, TrsoAux.denL_one] using this
+    have hlt : denL ctx.M.card ctx.leaf N σz / denL ctx.M.card ctx.leaf D σz < 1 := by
+      rw [hval]
+      have hpos : 0 < (nsort c).length := List.length_pos_iff.2 hcne'
+      exact pow_lt_one₀ (by norm_num) (by norm_num) (by omega)
+    have hr2' : fracSimplify N D = .ok r2 := hr2
+    have sr2 := shape_fracSimplify ctx.S σz P.gN P.gD P.sN P.sD P.fN P.fD hlt P.le hr2'
+    rw [hee]
+    refine shape_sumSafe_false σz sr2 (fun c0 s0 hcs => ?_)
+    have hmemN : r2 ∈ factors N :=
+      fracSimplify_chain_mem ctx.S σz P.gN P.gD P.sN P.sD P.fN P.fD hlt P.le hr2' (by rw [hcs]; rfl)
+    obtain ⟨n, hn1, hn2, hn3⟩ := P.cz r2 hmemN c0 s0 hcs
+    refine ⟨n, hn1, hn2, fun hm => ?_⟩
+    obtain ⟨v, hv, hvn⟩ := List.mem_map.1 hm
+    obtain ⟨m, hm', rfl⟩ := (mem_plainVars v _).1 hv
+    have hmc : m ∈ c := (mem_diff'.1 hm').1
+    have hmd : m ∈ d := (hdc m).2 hmc
+    have hmreg : m ∈ regularNodes G := mem_regularNodes.2 ⟨mem_nodes_of_mem_district hq.wfG hd hmd, hcT m hmc⟩
+    have : m = n := hvn
+    subst this
+    exact h.ign m hn3 hmreg
+
+/-- `trso_line10` unfolded, with the joint test as a Boolean -/
+theorem line10_unfold {q q' : Query} {G : MG Name} {c : List Name} {s : List (Pop × List Name)}
+    (h : line10 q G c s = .ok q') :
+    ∃ order cj facs e2, regularOrder G = .ok order ∧ (cj = true → ∃ pop cc, q.expr = .prob (some pop) cc []) ∧
+      (cj = false → ∀ pop cc, q.expr ≠ .prob (some pop) cc []) ∧
+      (nsort c).mapM (line10Factor q order cj) = .ok facs ∧ canonicalize (productSafe facs) = .ok e2 ∧
+      q'.expr = e2 := by
+  unfold line10 at h
+  obtain ⟨order, hord, h⟩ := bind_ok h
+  simp only [] at h
+  obtain ⟨facs, hfacs, h⟩ := bind_ok h
+  obtain ⟨e2, he2, h⟩ := bind_ok h
+  have hexpr : q'.expr = e2 := by
+    simp only [pure, Except.pure, Except.ok.injEq] at h
+    rw [← h]
+  refine ⟨order, _, facs, e2, hord, ?_, ?_, hfacs, he2, hexpr⟩
+  · intro hcj
+    split at hcj
+    · rename_i p cc hqe; exact ⟨p, cc, hqe⟩
+    · cases hcj
+  · intro hcj pop cc hqe
+    rw [hqe] at hcj
+    cases hcj
+
+/-- line 10 keeps the carried expression in shape: a canonical product -/
+theorem car_line10 (hc : CoinM ctx) (hq : QInv Mb q G) (h : SemInv ctx q G) (hcar : SrcCarried ctx q G)
+    (hlen : 1 < G.districts.length) {c' : List Name} (hc' : c' ∈ G.districts) (hcT : ∀ v ∈ c', isTnode v = false)
+    (hbig : 2 ≤ (nsort c').length) {s : List (Pop × List Name)} {q' : Query} (hq' : line10 q G c' s = .ok q') :
+    SrcCarried ctx q' (G.subgraph (nsort c')) ∧ ∃ gs, q'.expr = .prod gs := by
+  obtain ⟨order, cj, facs, e2, hord, hcjT, hcjF, hfacs, he2, hexpr⟩ := line10_unfold hq'
+  have hT : cj = true → ∃ c, JC ctx q G c := by
+    intro hcj
+    obtain ⟨p, cc, hqe⟩ := hcjT hcj
+    rcases h.shape with ⟨pop, c, _, jc⟩ | ⟨hnj, _⟩
+    · exact ⟨c, jc⟩
+    · exact absurd hqe (hnj _ _)
+  have hF : cj = false → Wf OneName (fun _ => True) q.expr := by
+    intro hcj
+    rcases h.shape with ⟨pop, c, hexp, _⟩ | ⟨_, hw⟩
+    · exact absurd hexp (hcjF hcj _ _)
+    · exact hw
+  have hfac : ∀ f ∈ facs, Good ctx.S f ∧ SumND f ∧ Shape ctx.M.card ctx.leaf σz f := by
+    intro f hf
+    obtain ⟨node, _, hnode⟩ := mapM_ok hfacs f hf
+    have hsem := TrsoAux.line10_factor_sem hq h hord hT hF hnode
+    refine ⟨hsem.1, hsem.2.1, ?_⟩
+    unfold line10Factor at hnode
+    obtain ⟨i, hi, hnode⟩ := bind_ok hnode
+    obtain ⟨l1, l2, hsplit, hlen1, _⟩ := indexOf_split hi
+    cases cj with
+    | true =>
+      simp only [if_true, pure, Except.pure, Except.ok.injEq] at hnode
+      rw [← hnode]
+      exact shape_leaf σz _ _ _
+    | false =>
+      simp only [Bool.false_eq_true, if_false] at hnode
+      rw [← hlen1] at hnode
+      obtain ⟨_, _, _, _, _, _, _, _, _, _, _, _, _, sfr⟩ := shape_ratio hc hq h hcar hlen hord hsplit hnode
+      exact sfr
+  have hlen2 : 2 ≤ facs.length := by
+    have : facs.length = (nsort c').length := by
+      clear he2 hfac
+      revert facs
+      generalize (nsort c') = L
+      intro facs hfacs
+      induction L generalizing facs with
+      | nil =>
+        simp only [List.mapM_nil, pure, Except.pure, Except.ok.injEq] at hfacs
+        rw [← hfacs]
+        rfl
+      | cons a L ih =>
+        rw [List.mapM_cons] at hfacs
+        obtain ⟨b, _, hfacs⟩ := bind_ok hfacs
+        obtain ⟨bs, hbs, hfacs⟩ := bind_ok hfacs
+        simp only [pure, Except.pure, Except.ok.injEq] at hfacs
+        subst hfacs
+        simp [ih bs hbs]
+    omega
+  have hne : facs ≠ [] := by intro h0; rw [h0] at hlen2; simp at hlen2
+  have hprodGood : Good ctx.S (productSafe facs) := good_productSafe ctx.S (fun t ht => (hfac t ht).1)
+  have hprodND : SumND (productSafe facs) := sumND_productSafe (fun t ht => (hfac t ht).2.1)
+  have hprodSh : Shape ctx.M.card ctx.leaf σz (productSafe facs) :=
+    shape_productSafe σz hne (fun t ht => (hfac t ht).2.2)
+  have hprodEq : productSafe facs = .prod (ssort exprLt facs) :=
+    TrsoAux.so_productSafe_eq (fun t ht => TrsoAux.so_noOne_isOne (hfac t ht).2.2.noOne)
+      (fun t ht => clean_not_zero (hfac t ht).1.1) hlen2
+  have hsh := shape_canonicalize ctx.S σz hprodGood hprodND hprodSh he2
+  obtain ⟨gs, hgs⟩ := canon_prod_isProd ctx.S σz (hprodEq ▸ hprodGood) (hprodEq ▸ hprodND) (hprodEq ▸ hprodSh)
+    (by rw [← hprodEq]; exact he2)
+  refine ⟨⟨hexpr ▸ hsh, ?_, by rw [hexpr, hgs]; rfl, ?_⟩, gs, by rw [hexpr, hgs]⟩
+  · apply chainZ_none
+    rw [hexpr, hgs]; rfl
+  · intro hl
+    have := subgraph_district_single hq.wfG hc'
+    omega
+
+end
+
 end Trso
 end Y0
